@@ -24,8 +24,13 @@ def sender_methods(ctx):
     for n, f in cls.methods.items():
         if n in low:
             continue
-        if A.find_calls(f.node, "brine.dump") and any(A.find_calls(f.node, "self." + l) for l in low):
-            enc.add(n)
+        prm = set(A.params(f.node))
+        for d in A.find_calls(f.node, "brine.dump"):
+            # a generic encoder dumps a tuple built from its own parameters and hands it to the write layer
+            if d.args and isinstance(d.args[0], ast.Tuple) and all(
+                    isinstance(e, ast.Name) and e.id in prm for e in d.args[0].elts) and \
+                    any(A.find_calls(f.node, "self." + l) for l in low):
+                enc.add(n)
     encodes = {n for n in low | enc if A.find_calls(cls.methods[n].node, "brine.dump")}
     return low | enc, encodes
 
@@ -247,7 +252,9 @@ def run(ctx, rep):
         def raises(node_ast, kind, _site=site_ast):
             if node_ast is _site:
                 return set(ENC)
-            return std_raises()(node_ast, kind)
+            if isinstance(node_ast, ast.Raise):
+                return None
+            return set()       # only the fate of the encode failure is followed here
         g2 = ctx.cfg(f, raises=raises)
         s2 = [n for n in g2.live if n.ast is site_ast and n.kind == site.kind][0]
         exc_sends = [n for n in g2.live if n.ast is not None and n.kind == "stmt" and any(
@@ -255,11 +262,18 @@ def run(ctx, rep):
             and ctx.try_fold(c.args[0]) == MSG_EXC for c in A.calls(n.ast) if c.args)]
         starts = [t for t, l in s2.succ if l == "exc"]
         bad = None
+        dom2 = Q.dominators(g2)
+        exempt = []
+        for n in g2.live:
+            if isinstance(n.ast, ast.Raise) and n.ast.exc is None:
+                for t, pol in Q.dominating_conditions(g2, n, dom2):
+                    if pol and isinstance(t.ast, ast.Subscript) and (A.const_str(t.ast.slice) or "").startswith("propagate_"):
+                        exempt.append(n)
         for st in starts:
             if st is g2.excexit:
                 bad = [s2, st]
                 break
-            p = Q.find_path(st, [g2.exit, g2.excexit], avoid=exc_sends, skip_first=False)
+            p = Q.find_path(st, [g2.exit, g2.excexit], avoid=exc_sends + exempt, skip_first=False)
             if p:
                 bad = [s2] + p
                 break
